@@ -1929,7 +1929,13 @@ def cache_history_model(repo, depth=3):
 
             def star_imports(i3, a3, k3):
                 if str(src.attrs.get('filename')).endswith('a.py'):
-                    mb = i3.call(i3.getattr(a3[0], 'get_module'), ['b'], {})
+                    try:
+                        mb = i3.call(i3.getattr(a3[0], 'get_module'), ['b'], {})
+                    except InterpRaise as e:
+                        if e.exc_name not in ('ImportError', 'ModuleNotFoundError'):
+                            raise
+                        sc.attrs['deps'] = 'b cannot be imported'      # (supp's own resolve_star_imports skips such an import)
+                        return
                     sc.attrs['deps'] = i3.getattr(mb, 'scope').attrs.get('text')
             sc.attrs['resolve_star_imports'] = Native('resolve_star_imports', star_imports)
             return sc
@@ -1945,7 +1951,8 @@ def cache_history_model(repo, depth=3):
         if proj_cls is None:
             raise AnalysisError('Project vanished')
         out = []
-        ops = ['edit a', 'edit b', 'touch a', 'restore a', 'request a', 'request b', 'failing request a', 'create c', 'request c']
+        ops = ['edit a', 'edit b', 'touch a', 'restore a', 'request a', 'request b', 'failing request a', 'create c', 'request c',
+               'delete b']
         bad = []
         bad_deps = []
         second = []
@@ -2015,6 +2022,14 @@ def cache_history_model(repo, depth=3):
                             oldest[path] = oldest.get(path, 1000.25) - 0.125     # older than any time this file ever had:
                             it.mtimes[path] = oldest[path]                       # a modification time is never reused
                             it.files[path] = '%s: restored (%d)' % (mod, rev[path])
+                        elif kind == 'delete':
+                            # the file is removed (a renamed or deleted module): importlib no longer finds it
+                            if path in it.fs:
+                                seq[0] += 1
+                                changed_at[path] = seq[0]
+                                it.fs.discard(path)
+                                it.mtimes.pop(path, None)
+                                it.files.pop(path, None)
                         elif kind == 'create':
                             if path not in it.fs:
                                 clock[0] += 0.25
@@ -2033,8 +2048,8 @@ def cache_history_model(repo, depth=3):
                             # a module saved after the module it imports from was last changed is analysed anew, against the current
                             # state of that module (older analyses of a that outlive a change of b are the known defect C09-R1)
                             if mod == 'a' and changed_at['<S>/a.py'] >= changed_at['<S>/b.py'] and changed_at['<S>/b.py'] > 0 \
-                                    and got[2] != it.files['<S>/b.py']:
-                                bad_deps.append((hist, op, got[2], it.files['<S>/b.py']))
+                                    and got[2] != it.files.get('<S>/b.py', 'b cannot be imported'):
+                                bad_deps.append((hist, op, got[2], it.files.get('<S>/b.py', 'b cannot be imported')))
                                 break
                 except Uninterpretable as e:
                     raise AnalysisError('the module cache is outside the interpretable subset: %s' % e)
